@@ -160,6 +160,32 @@ func checkC11(c *Ctx) {
 			continue
 		}
 		for _, del := range fi.deletes {
+			// a removal helper extracted from the registering handler: deletes only when the table still maps the key
+			// to the record it was handed, and every caller hands it a record it registered itself
+			if p, ok, why := deleteGuardedByParam(c, fn, del, table, guard); p != nil {
+				nSelf++
+				construct := "self-removal in " + fname(fn)
+				idx := -1
+				for i, q := range fn.Params {
+					if q == p {
+						idx = i
+					}
+				}
+				callersOK, nCallers := true, 0
+				for _, e := range ir.Callers(c.G, fn) {
+					if e.Site == nil || !c.P.IsLib(e.Caller.Func) || idx >= len(e.Site.Common().Args) {
+						continue
+					}
+					nCallers++
+					if !registeredByCaller(c, e.Caller.Func, ir.Unwrap(e.Site.Common().Args[idx]), table, byFnInserts(byFn)) {
+						callersOK = false
+						why = sprintf("%s, but %s passes it a record it did not register itself", why, fname(e.Caller.Func))
+					}
+				}
+				c.R.Check(ok && callersOK && nCallers > 0, "R-remove-self-only", construct, c.Pos(del.Pos), why,
+					sprintf("%s deletes the table entry of %s %s: a stream replaced by a newer one evicts the newer one when it ends", fname(fn), table, why))
+				continue
+			}
 			nForeign++
 			construct := "foreign delete in " + fname(fn)
 			// the deleting function must cancel the record it looked up under the same lock acquisition
@@ -298,6 +324,66 @@ func deleteGuardedByIdentity(c *Ctx, fn *ssa.Function, del Access, rec ssa.Value
 		return false, "with an identity test that is evaluated outside the critical section of the delete"
 	}
 	return false, "unconditionally (no identity comparison with its own record guards the delete)"
+}
+
+// deleteGuardedByParam: the delete is controlled by `table[key] == p` for a parameter p of fn, evaluated in the same
+// critical section. Returns the parameter (nil when there is no such comparison).
+func deleteGuardedByParam(c *Ctx, fn *ssa.Function, del Access, table, guard string) (*ssa.Parameter, bool, string) {
+	for _, p := range fn.Params {
+		if _, isPtr := p.Type().Underlying().(*types.Pointer); !isPtr {
+			continue
+		}
+		ok, why := deleteGuardedByIdentity(c, fn, del, p, table, guard)
+		if ok || !strings.HasPrefix(why, "unconditionally") {
+			return p, ok, why
+		}
+	}
+	return nil, false, ""
+}
+
+func byFnInserts[T any](m map[*ssa.Function]T) map[*ssa.Function]bool {
+	out := map[*ssa.Function]bool{}
+	for f := range m {
+		out[f] = true
+	}
+	return out
+}
+
+// registeredByCaller: v is a record that caller stored into the table itself, or that a function storing into the table
+// returned to it.
+func registeredByCaller(c *Ctx, caller *ssa.Function, v ssa.Value, table string, tableFns map[*ssa.Function]bool) bool {
+	inserts := func(f *ssa.Function, val ssa.Value) bool {
+		found := false
+		ir.EachInstr(f, func(_ *ssa.BasicBlock, _ int, in ssa.Instruction) {
+			mu, ok := in.(*ssa.MapUpdate)
+			if !ok {
+				return
+			}
+			if fl, _, ok := ir.LoadedField(mu.Map); !ok || fl.Key() != table {
+				return
+			}
+			if val == nil || sameValue(ir.Unwrap(mu.Value), val) {
+				found = true
+			}
+		})
+		return found
+	}
+	if inserts(caller, v) {
+		return true
+	}
+	var call *ssa.Call
+	switch x := v.(type) {
+	case *ssa.Call:
+		call = x
+	case *ssa.Extract:
+		call, _ = x.Tuple.(*ssa.Call)
+	}
+	if call != nil {
+		if sc := ir.StaticCallee(call); sc != nil && c.P.IsLib(sc) && inserts(sc, nil) {
+			return true
+		}
+	}
+	return false
 }
 
 func sameValue(a, b ssa.Value) bool {
